@@ -5,6 +5,7 @@
           schedules, and the indices where the model's own Calendar decomposition of `ts`
           (or the rate obtained through it) differs
    {"op":"tariffs","file":f,"start":t,"n":n,"period":p}       → get_tariffs
+   {"op":"tariffs_us","file":f,"start_us":µs,"n":n,"step_us":µs} → get_tariffs, any start / timedelta step
    {"op":"iface","file":f,"sim_start":t,"period":p,"idx":i,"n":n}  → Interface.get_prices / get_demand_charge
    {"op":"cost","file":f,"sim_start":t,"period":p,"agg":[bits…]}   → energy_cost, demand_charge
    {"op":"load","file":f}                                      → the loaded schedule list
@@ -120,6 +121,9 @@ def handle (j : Json) : Except String Json := do
     handleInstants l j
   else if op == "tariffs" then
     let r := getTariffs l (← getInt j "start") (← getNat j "n") (← getNat j "period")
+    pure (Json.mkObj [("prices", jResL r)])
+  else if op == "tariffs_us" then
+    let r := getTariffsUs l (← getInt j "start_us") (← getNat j "n") (← getInt j "step_us")
     pure (Json.mkObj [("prices", jResL r)])
   else if op == "iface" then
     let st ← getInt j "sim_start"; let p ← getNat j "period"; let idx ← getInt j "idx"
